@@ -25,7 +25,7 @@ MANIFEST = {
     "text": "All pause/suspend landing points of plans with bundle, monitor, interruption and collect streams are "
             "executed and resumed; seq_num sets, step-by-one monotonicity between rewinds, legal repeats and num_events "
             "are checked per stream.",
-    "note": "Corpus plans x all coordinates; monitor updates are scheduled at fixed virtual times.",
+    "note": "Corpus plans (incl. stream-asset collects, points taken with rewinding off, a monitored+configured signal, a stream re-described after clear_checkpoint) uninterrupted and x all coordinates; monitor updates at fixed virtual times.",
     "design_ref": "3 (C05)",
 }
 PLANS_Q = ["custom_mon", "scan", "fly", "nested", "two_runs", "keys_sparse", "collect_sd", "mon_cfg", "norewind_events", "norewind_point", "clearcp_cfg"]
